@@ -144,6 +144,22 @@ func (vt *v2T) scenC04() {
 	for _, k := range names[:8] {
 		inputs = append(inputs, scen[k])
 	}
+	// many notice lines around several licenses: more than a dozen fully tied candidates, which is what an
+	// unstable sort needs in order to show an incomplete ordering
+	{
+		var sb strings.Builder
+		for k := 0; k < 3; k++ {
+			d := base[sub.rng.Intn(len(base))]
+			for li, ln := range strings.Split(string(d.Data), "\n") {
+				if li%7 == 0 {
+					fmt.Fprintf(&sb, "Copyright %d Holder Number %d\n", 1990+k*10+li%10, li)
+				}
+				sb.WriteString(ln + "\n")
+			}
+			sb.WriteString("zzqxvaa qqzzkbb\n")
+		}
+		inputs = append(inputs, []byte(sb.String()))
+	}
 	// histories: every classifier sees the inputs in its own order, interleaved with Match / MatchFrom /
 	// Normalize calls on other inputs
 	for round := 0; round < 2; round++ {
